@@ -59,13 +59,30 @@ func main() {
 			diff = append(diff, fmt.Sprintf("target tag %s resolves to %s, source digest is %s", r.TgtTag, d, top.Digest))
 		}
 		diff = append(diff, copyeng.Verify(r.Tgt, ex)...)
+		// copied referrers must also be discoverable: where the target keeps referrers in a fallback tag
+		// (registry without the referrers API, layout) that tag has to list every required referrer
+		if r.Want.Referrers && (r.Tgt.IsDir() || !r.Tgt.Host.Cfg.ReferrersAPI) && len(diff) == 0 {
+			for _, n := range ex.Nodes {
+				if n.Subject < 0 {
+					continue
+				}
+				subj := r.G.Nodes[n.Subject].Digest
+				listed, ok := copyeng.FallbackListed(r.Tgt, subj)
+				run.Count("fallback_listings_checked", 1)
+				if !ok || !listed[n.Digest] {
+					diff = append(diff, fmt.Sprintf("referrer %s (node %d) was copied but the target's fallback tag for its subject %s does not list it", n.Digest, n.ID, subj))
+				}
+			}
+		}
 		run.Count("objects_required", len(ex.Nodes))
 		run.Count("tags_required", len(ex.Tags)+1)
 		if len(diff) > 0 {
 			w := r.Describe()
 			w["differences"] = diff
 			cls := "missing"
-			if strings.Contains(diff[0], "tag") {
+			if strings.Contains(diff[0], "fallback tag") {
+				cls = "referrer-not-listed"
+			} else if strings.Contains(diff[0], "tag") {
 				cls = "tag"
 			} else if strings.Contains(diff[0], "differ") {
 				cls = "bytes"
